@@ -60,6 +60,11 @@ pub fn quiet(id: u32) {
     }
 }
 
+/// The available parallelism as divan sees it (for `threads = [0, ncpu()]`).
+pub fn ncpu() -> usize {
+    divan::verif::known_parallelism()
+}
+
 pub fn cost(ticks: u64) {
     divan_verif_rt::clock::advance(ticks);
 }
@@ -535,6 +540,23 @@ def family_nested(m, tier):
     open_mod(m, p3, 8, "void")
     close_mod(m, 8)
     close_mod(m, 4)
+    # a function and a group module of the same name are siblings (different namespaces), in both orders
+    pf = open_mod(m, path, 4, "fn_first")
+    add_bench(m, pf, 8, "twin")
+    pt = open_mod(m, pf, 8, "twin", group={"display": "twin group", "options": [("sample_count", "3"), ("sample_size", "2")]})
+    add_bench(m, pt, 12, "inside", form="bencher")
+    close_mod(m, 8)
+    close_mod(m, 4)
+    pf = open_mod(m, path, 4, "mod_first")
+    pt = open_mod(m, pf, 8, "twin", group={"display": "twin group", "options": [("sample_count", "3"), ("sample_size", "2")]})
+    add_bench(m, pt, 12, "inside", form="bencher")
+    close_mod(m, 8)
+    add_bench(m, pf, 8, "twin")
+    add_bench(m, pf, 8, "twin_generic", types=["TA", "TB"], name="renamed generic")
+    m.emit("        fn holder() {")
+    add_bench(m, pf, 12, "twin_generic")
+    m.emit("        }")
+    close_mod(m, 4)
     # several benches and a same-named bench in a sibling module
     pa = open_mod(m, path, 4, "a")
     add_bench(m, pa, 8, "same")
@@ -634,7 +656,8 @@ def parse_threads_option(v):
     """The `threads = ...` attribute value as a list of ints (0 = available parallelism)."""
     v = v.strip()
     if v.startswith("["):
-        return [int(x) for x in v.strip("[]").split(",") if x.strip()]
+        # `crate::rt::ncpu()` = the available parallelism, written 0 here too (it resolves to the same count)
+        return [0 if "ncpu" in x else int(x) for x in v.strip("[]").split(",") if x.strip()]
     if v == "true":
         return [0]
     if v == "false":
